@@ -16,10 +16,11 @@ import (
 	"zv/internal/zv"
 )
 
-const nRegs = 3
+const nRegs = 4
 
-// Universe: a handful of real certificates (index = uid) with shared subjects, shared key ids and one
-// duplicate DER (a second *Certificate object parsed from the same bytes).
+// Universe: real certificates (index = uid) with MANY shared subjects and shared key ids (at least four
+// distinct certificates with one subject and four with one SubjectKeyId: the index buckets of the pool then
+// reach lengths with spare capacity) and one duplicate DER (a second *Certificate object parsed from the same bytes).
 type Universe struct {
 	Certs []*x509.Certificate
 	DER   [][]byte
@@ -32,6 +33,13 @@ type Universe struct {
 	Fresh []*x509.Certificate // a further parse of every DER (stands for the objects AppendCertsFromPEM creates, in the reference)
 	names *Interner
 	kids  *Interner
+
+	NameIDs, KidIDs []int          // sorted distinct name ids (subjects and issuers) / non-empty key ids (SKID and AKID)
+	nameKey, kidKey map[int]string // id -> raw bytes (the key of the pool's index maps)
+	SubjClass       []int          // certificates (distinct fingerprints) of the most frequent subject
+	KidClass        []int          // certificates (distinct fingerprints) of the most frequent non-empty SubjectKeyId
+	desc            string
+	parentsMemo     sync.Map // pool state -> []string: findVerifiedParents results of intermediate observations
 }
 
 var (
@@ -42,24 +50,38 @@ var (
 func handSpecs() []CertSpec {
 	ku := x509.KeyUsageCertSign
 	return []CertSpec{
-		{Subject: 1, Key: 1, SKID: 1, IssuerName: 1, AKID: 0, SignKey: 1, Serial: 0, BCValid: true, IsCA: true, MaxPathLen: -1, KeyUsage: ku},  // root R
-		{Subject: 1, Key: 2, SKID: 2, IssuerName: 1, AKID: 2, SignKey: 2, Serial: 1, BCValid: true, IsCA: true, MaxPathLen: -1},                // root R' (same subject, other key)
-		{Subject: 2, Key: 3, SKID: 3, IssuerName: 1, AKID: 1, SignKey: 1, Serial: 2, BCValid: true, IsCA: true, MaxPathLen: 0, KeyUsage: ku},   // I by R
-		{Subject: 2, Key: 3, SKID: 3, IssuerName: 1, AKID: 2, SignKey: 2, Serial: 3, BCValid: true, IsCA: true, MaxPathLen: -1},                // I' (same subject+key+skid) by R'
-		{Subject: 3, Key: 4, SKID: 0, IssuerName: 2, AKID: 3, SignKey: 3, Serial: 4, MaxPathLen: -1},                                          // leaf by I key (AKID lookup: 2 and 3 both verify)
-		{Subject: 1, Key: 4, SKID: 0, IssuerName: 2, AKID: 0, SignKey: 1, Serial: 5, BCValid: true, IsCA: false, MaxPathLen: -1},               // no SKID/AKID, subject R, issuer I, bad signature (name lookup)
+		{Subject: 1, Key: 1, SKID: 1, IssuerName: 1, AKID: 0, SignKey: 1, Serial: 0, BCValid: true, IsCA: true, MaxPathLen: -1, KeyUsage: ku},  // 0 root R
+		{Subject: 1, Key: 2, SKID: 2, IssuerName: 1, AKID: 2, SignKey: 2, Serial: 1, BCValid: true, IsCA: true, MaxPathLen: -1},                // 1 root R' (same subject, other key)
+		{Subject: 2, Key: 3, SKID: 3, IssuerName: 1, AKID: 1, SignKey: 1, Serial: 2, BCValid: true, IsCA: true, MaxPathLen: 0, KeyUsage: ku},   // 2 I by R
+		{Subject: 2, Key: 3, SKID: 3, IssuerName: 1, AKID: 2, SignKey: 2, Serial: 3, BCValid: true, IsCA: true, MaxPathLen: -1},                // 3 I' (same subject+key+skid) by R'
+		{Subject: 3, Key: 4, SKID: 0, IssuerName: 2, AKID: 3, SignKey: 3, Serial: 4, MaxPathLen: -1},                                          // 4 leaf by I key (AKID lookup: 2 and 3 both verify)
+		{Subject: 1, Key: 4, SKID: 0, IssuerName: 2, AKID: 0, SignKey: 1, Serial: 5, BCValid: true, IsCA: false, MaxPathLen: -1},               // 5 no SKID/AKID, subject R, issuer I, bad signature (name lookup)
+		{Subject: 1, Key: 5, SKID: 1, IssuerName: 1, AKID: 1, SignKey: 5, Serial: 6, BCValid: true, IsCA: true, MaxPathLen: -1},                // 6 R2: subject and key id of R, own key, self-signed
+		{Subject: 1, Key: 6, SKID: 1, IssuerName: 1, AKID: 1, SignKey: 1, Serial: 7, BCValid: true, IsCA: true, MaxPathLen: -1},                // 7 R3: subject and key id of R, issued by R
+		{Subject: 1, Key: 7, SKID: 1, IssuerName: 1, AKID: 0, SignKey: 7, Serial: 8, BCValid: true, IsCA: true, MaxPathLen: -1},                // 8 R4: subject and key id of R, own key, self-signed
+		{Subject: 4, Key: 8, SKID: 4, IssuerName: 1, AKID: 1, SignKey: 5, Serial: 9, MaxPathLen: -1},                                          // 9 child of R2 (AKID lookup among the four members with key id 1)
+		{Subject: 5, Key: 9, SKID: 0, IssuerName: 1, AKID: 0, SignKey: 7, Serial: 10, MaxPathLen: -1},                                         // 10 child of R4 (name lookup among the six members with subject 1)
 	}
 }
 
+// randSpecs: 9..11 certificates; certificates 0..4 share subject 1, certificates 2..6 share key id 1, the rest
+// is drawn with a universe-specific bias towards that subject / key id.
 func randSpecs(r *zv.Rng) []CertSpec {
 	var specs []CertSpec
-	for i := 0; i < 6; i++ {
-		s := CertSpec{Subject: 1 + r.Intn(3), Key: 1 + r.Intn(4), Serial: i, MaxPathLen: -1}
-		switch r.Intn(10) {
-		case 0, 1:
+	n := 9 + r.Intn(3)
+	pSubj, pKid := 30+r.Intn(60), 20+r.Intn(60)
+	for i := 0; i < n; i++ {
+		s := CertSpec{Subject: 2 + r.Intn(2), Key: 1 + r.Intn(6), Serial: i, MaxPathLen: -1}
+		if i <= 4 || r.Chance(pSubj) {
+			s.Subject = 1
+		}
+		switch {
+		case (i >= 2 && i <= 6) || r.Chance(pKid):
+			s.SKID = 1
+		case r.Chance(15):
 			s.SKID = 0
-		case 2, 3, 4:
-			s.SKID = 1 + r.Intn(3)
+		case r.Chance(30):
+			s.SKID = 2 + r.Intn(2)
 		default:
 			s.SKID = 10 + s.Key
 		}
@@ -82,7 +104,7 @@ func randSpecs(r *zv.Rng) []CertSpec {
 			}
 		}
 		if r.Chance(20) {
-			s.SignKey = 1 + r.Intn(4) // possibly a bad signature
+			s.SignKey = 1 + r.Intn(6) // possibly a bad signature
 		}
 		s.BCValid = r.Chance(75)
 		s.IsCA = s.BCValid && r.Chance(75)
@@ -110,7 +132,7 @@ func GetUniverse(seed uint64) *Universe {
 	} else {
 		specs = randSpecs(zv.NewRng(seed * 7919))
 	}
-	u := &Universe{names: NewInterner(), kids: NewInterner()}
+	u := &Universe{names: NewInterner(), kids: NewInterner(), nameKey: map[int]string{}, kidKey: map[int]string{}}
 	for _, s := range specs {
 		der, err := MintDER(s)
 		if err != nil {
@@ -128,6 +150,11 @@ func GetUniverse(seed uint64) *Universe {
 		c2, _ := x509.ParseCertificate(der)
 		u.Fresh = append(u.Fresh, c2)
 	}
+	note := func(in *Interner, keys map[int]string, b []byte) int {
+		id := in.ID(b)
+		keys[id] = string(b)
+		return id
+	}
 	for i, c := range u.Certs {
 		fp := i
 		for j := 0; j < i; j++ {
@@ -137,10 +164,46 @@ func GetUniverse(seed uint64) *Universe {
 			}
 		}
 		u.FP = append(u.FP, fp+1)
-		u.Subj = append(u.Subj, u.names.ID(c.RawSubject))
-		u.Iss = append(u.Iss, u.names.ID(c.RawIssuer))
-		u.SKID = append(u.SKID, u.kids.ID(c.SubjectKeyId))
-		u.AKID = append(u.AKID, u.kids.ID(c.AuthorityKeyId))
+		u.Subj = append(u.Subj, note(u.names, u.nameKey, c.RawSubject))
+		u.Iss = append(u.Iss, note(u.names, u.nameKey, c.RawIssuer))
+		u.SKID = append(u.SKID, note(u.kids, u.kidKey, c.SubjectKeyId))
+		u.AKID = append(u.AKID, note(u.kids, u.kidKey, c.AuthorityKeyId))
+	}
+	for id := range u.nameKey {
+		if id != 0 {
+			u.NameIDs = append(u.NameIDs, id)
+		}
+	}
+	for id := range u.kidKey {
+		if id != 0 {
+			u.KidIDs = append(u.KidIDs, id)
+		}
+	}
+	sort.Ints(u.NameIDs)
+	sort.Ints(u.KidIDs)
+	class := func(ids []int, skipZero bool) []int {
+		var best []int
+		seen := map[int]bool{}
+		for _, id := range ids {
+			if seen[id] || (skipZero && id == 0) {
+				continue
+			}
+			seen[id] = true
+			var l []int
+			for i := range ids {
+				if ids[i] == id && u.FP[i] == i+1 {
+					l = append(l, i)
+				}
+			}
+			if len(l) > len(best) {
+				best = l
+			}
+		}
+		return best
+	}
+	u.SubjClass, u.KidClass = class(u.Subj, false), class(u.SKID, true)
+	if len(u.SubjClass) < 4 || len(u.KidClass) < 4 {
+		panic("c08: universe without four same-subject / four same-key-id certificates")
 	}
 	for i := range u.Certs {
 		row := make([]bool, len(u.Certs))
@@ -149,12 +212,15 @@ func GetUniverse(seed uint64) *Universe {
 		}
 		u.Chk = append(u.Chk, row)
 	}
+	u.desc = u.mkDesc()
 	unis[seed] = u
 	return u
 }
 
 // Desc is the abstract universe sent to the model: per certificate fp:subject:issuer:skid:akid, and the chk matrix.
-func (u *Universe) Desc() string {
+func (u *Universe) Desc() string { return u.desc }
+
+func (u *Universe) mkDesc() string {
 	var cs, rows []string
 	for i := range u.Certs {
 		cs = append(cs, fmt.Sprintf("%d:%d:%d:%d:%d", u.FP[i], u.Subj[i], u.Iss[i], u.SKID[i], u.AKID[i]))
@@ -211,7 +277,7 @@ func (u *Universe) pemFor(tokens []string) []byte {
 	return out
 }
 
-// ---- T3 reference: ordered set keyed by fingerprint ----
+// ---- T3 reference: ordered set keyed by fingerprint (a VALUE: Sum builds a new one from copies) ----
 type refPool struct {
 	certs []*x509.Certificate
 }
@@ -235,6 +301,187 @@ func bit(b bool) byte {
 		return '1'
 	}
 	return '0'
+}
+
+func dots(l []int) string {
+	ss := make([]string, len(l))
+	for i, x := range l {
+		ss[i] = strconv.Itoa(x)
+	}
+	return strings.Join(ss, ".")
+}
+
+func sameInts(a, b []int) bool {
+	if len(a) != len(b) {
+		return false
+	}
+	for i := range a {
+		if a[i] != b[i] {
+			return false
+		}
+	}
+	return true
+}
+
+// realParents calls the real findVerifiedParents of pool p for every universe certificate; the strings
+// are `parents/errCert/errNil` (T2). T3: only members whose signature over the child verifies are
+// returned, and (the characterisation proved as parents_sound) exactly the verifying lookup candidates.
+func (u *Universe) realParents(p *x509.CertPool, certs []*x509.Certificate, where string, fail func(string, ...any), tags map[string]bool) []string {
+	var pp []string
+	uids := make([]int, len(certs))
+	for i, c := range certs {
+		uids[i] = u.uid(c)
+	}
+	for i, c := range u.Certs {
+		parents, errCert, err := p.ZVFindVerifiedParents(c)
+		for _, n := range parents {
+			// T3: only pool members whose signature over the child verifies
+			if n < 0 || n >= len(certs) {
+				fail("%s: findVerifiedParents(cert %d) returned index %d outside the pool", where, i, n)
+				continue
+			}
+			ok := false
+			if j := uids[n]; j >= 0 {
+				ok = u.Chk[i][j%100] // CheckSignatureFrom(child i, certificate with the DER of universe object j), computed once with the real function
+			} else {
+				ok = c.CheckSignatureFrom(certs[n]) == nil
+			}
+			if !ok {
+				fail("%s: findVerifiedParents(cert %d) returned member %d whose signature check over the child fails", where, i, n)
+			}
+		}
+		// T3: every member that is a lookup candidate (key id of the child's AKID if some member has it, else
+		// the child's issuer name) and verifies the child is returned, in pool order
+		var bySK, byNm, want []int
+		for n, m := range certs {
+			if len(c.AuthorityKeyId) > 0 && bytes.Equal(m.SubjectKeyId, c.AuthorityKeyId) {
+				bySK = append(bySK, n)
+			}
+			if bytes.Equal(m.RawSubject, c.RawIssuer) {
+				byNm = append(byNm, n)
+			}
+		}
+		cand := bySK
+		if len(cand) == 0 {
+			cand = byNm
+		}
+		for _, n := range cand {
+			if j := uids[n]; j >= 0 && u.Chk[i][j%100] {
+				want = append(want, n)
+			}
+		}
+		if !sameInts(parents, want) {
+			fail("%s: findVerifiedParents(cert %d) = %v, but the pool members that are lookup candidates and verify the child are %v", where, i, parents, want)
+		}
+		if len(parents) > 0 {
+			tags["parents-found"] = true
+		}
+		if len(parents) > 1 {
+			tags["parents-multiple"] = true
+		}
+		ec := "-"
+		if errCert != nil {
+			ec = strconv.Itoa(u.uid(errCert))
+			tags["parents-rejected-candidate"] = true
+		}
+		pp = append(pp, fmt.Sprintf("%s/%s/%c", dots(parents), ec, bit(err == nil)))
+	}
+	return pp
+}
+
+// observePool: the full observation of one live pool (T2 text) and the T3 oracle against the reference.
+// final=false: the findVerifiedParents results of a pool STATE (certificate objects + the three index maps, which
+// is all the function reads) are computed with the real function once per universe and reused for equal states.
+func (u *Universe) observePool(p *x509.CertPool, ref *refPool, where string, final bool, fail func(string, ...any), tags map[string]bool) string {
+	certs := p.Certificates()
+	subs := p.Subjects()
+	ids := make([]int, len(certs))
+	ss := make([]int, len(subs))
+	for i, c := range certs {
+		ids[i] = u.uid(c)
+	}
+	for i, s := range subs {
+		ss[i] = u.names.ID(s)
+	}
+	// T3: the pool is exactly the reference ordered set
+	if p.Size() != len(ref.certs) || len(certs) != len(ref.certs) || len(subs) != len(ref.certs) {
+		fail("%s: Size=%d len(Certificates)=%d len(Subjects)=%d, but %d distinct fingerprints were added", where, p.Size(), len(certs), len(subs), len(ref.certs))
+	} else {
+		for i, c := range certs {
+			if !bytes.Equal(c.Raw, ref.certs[i].Raw) {
+				fail("%s: Certificates()[%d] is not the %d-th distinct certificate in first-insertion order", where, i, i)
+			}
+			if ids[i] < 100 && c != ref.certs[i] {
+				fail("%s: Certificates()[%d] is not the first-inserted object for its fingerprint", where, i)
+			}
+			if !bytes.Equal(subs[i], c.RawSubject) {
+				fail("%s: Subjects()[%d] differs from Certificates()[%d].RawSubject", where, i, i)
+			}
+		}
+	}
+	var cb []byte
+	for i, c := range u.Certs {
+		got := p.Contains(c)
+		cb = append(cb, bit(got))
+		if want := ref.has(c); got != want {
+			fail("%s: Contains(cert %d) = %v, want %v", where, i, got, want)
+		}
+	}
+	// T3: the index maps are EXACTLY the positions computed from certs (nothing missing, nothing foreign)
+	bySKID, byName, bySHA := p.ZVIndex()
+	wantName, wantSKID := map[string][]int{}, map[string][]int{}
+	for i, c := range certs {
+		if n, ok := bySHA[string(c.FingerprintSHA256)]; !ok || n != i {
+			fail("%s: bySHA256 of certs[%d] = %d,%v", where, i, n, ok)
+		}
+		wantName[string(c.RawSubject)] = append(wantName[string(c.RawSubject)], i)
+		if len(c.SubjectKeyId) > 0 {
+			wantSKID[string(c.SubjectKeyId)] = append(wantSKID[string(c.SubjectKeyId)], i)
+		}
+	}
+	if len(bySHA) != len(certs) {
+		fail("%s: bySHA256 has %d keys for %d certificates", where, len(bySHA), len(certs))
+	}
+	for _, x := range []struct {
+		what      string
+		got, want map[string][]int
+	}{{"byName", byName, wantName}, {"bySubjectKeyId", bySKID, wantSKID}} {
+		for k, l := range x.want {
+			if !sameInts(x.got[k], l) {
+				fail("%s: %s bucket is %v, but the members with that subject / key id are at %v (a member is missed by parent lookup, or a foreign index is looked up)", where, x.what, x.got[k], l)
+			}
+			if len(l) >= 4 {
+				tags["bucket>=4-"+x.what] = true
+			}
+		}
+		for k, l := range x.got {
+			if _, ok := x.want[k]; !ok {
+				fail("%s: %s has a bucket %v for a subject / key id no member has", where, x.what, l)
+			}
+		}
+	}
+	var in, ik []string
+	for _, id := range u.NameIDs {
+		in = append(in, dots(byName[u.nameKey[id]]))
+	}
+	for _, id := range u.KidIDs {
+		ik = append(ik, dots(bySKID[u.kidKey[id]]))
+	}
+	state := fmt.Sprintf("%d/%s/%s/C=%s/N=%s/K=%s", p.Size(), dots(ids), dots(ss), cb, strings.Join(in, ","), strings.Join(ik, ","))
+	var pp []string
+	if !final {
+		if v, ok := u.parentsMemo.Load(state); ok {
+			pp = v.([]string)
+		}
+	}
+	if pp == nil {
+		viol := false
+		pp = u.realParents(p, certs, where, func(f string, a ...any) { viol = true; fail(f, a...) }, tags)
+		if !viol {
+			u.parentsMemo.Store(state, pp)
+		}
+	}
+	return state + "/P=" + strings.Join(pp, ",")
 }
 
 func exec(line string) zv.Out {
@@ -261,8 +508,93 @@ func exec(line string) zv.Out {
 	if f[4] == "-" {
 		ops = nil
 	}
+	// ---- observation of EVERY live pool (T2 text, delta-encoded: "=" for a variable whose observation is the
+	// same text as after the previous operation) and oracle (T3), called after every operation
+	prev := make([]string, nRegs)
+	var steps []string
+	observe := func(k int, final bool) {
+		where := "initially"
+		if k >= 0 {
+			where = fmt.Sprintf("after op %d %s", k, ops[k])
+		}
+		var parts []string
+		for r := 0; r < nRegs; r++ {
+			p := regs[r]
+			var o string
+			if p == nil {
+				o = "nil"
+				if p.Size() != 0 {
+					fail("nil pool has Size %d", p.Size())
+				}
+				for i, c := range u.Certs {
+					if p.Contains(c) {
+						fail("nil pool Contains(cert %d)", i)
+					}
+				}
+				if ps, ec, err := p.ZVFindVerifiedParents(u.Certs[0]); len(ps) != 0 || ec != nil || err != nil {
+					fail("nil pool returns parents")
+				}
+			} else {
+				o = u.observePool(p, refs[r], fmt.Sprintf("%s: pool %d", where, r), final, fail, tags)
+			}
+			if k >= 0 && o == prev[r] {
+				parts = append(parts, "=")
+			} else {
+				parts = append(parts, o)
+			}
+			prev[r] = o
+		}
+		var vb []byte
+		for a := 0; a < nRegs; a++ {
+			for b := 0; b < nRegs; b++ {
+				got := regs[a].Covers(regs[b])
+				vb = append(vb, bit(got))
+				want := true
+				if refs[b] != nil {
+					for _, c := range refs[b].certs {
+						if refs[a] == nil || !refs[a].has(c) {
+							want = false
+						}
+					}
+				}
+				if got != want {
+					fail("%s: pool %d Covers pool %d = %v, want %v", where, a, b, got, want)
+				}
+			}
+		}
+		steps = append(steps, strings.Join(parts, "|")+"|V="+string(vb))
+	}
+	observe(-1, len(ops) == 0)
+	role := map[*x509.CertPool]string{} // what an earlier Sum made of this pool object
+	grew := func(r, before int) {
+		if regs[r].Size() > before {
+			if w, ok := role[regs[r]]; ok {
+				tags["mutated-after-sum-"+w] = true
+			}
+		}
+	}
 	for k, op := range ops {
 		args := strings.Split(op[1:], ":")
+		if r, _ := strconv.Atoi(args[0]); regs[r] == nil && (op[0] == 'a' || (op[0] == 'p' && strings.Contains(args[1], "c"))) {
+			// a certificate is added through a nil *CertPool: the code dereferences nil (the model says panic). The
+			// generators only produce this deliberately; the shrinker may produce it by deleting the Sum that made
+			// the variable live.
+			panicked := func() (p bool) {
+				defer func() { p = recover() != nil }()
+				if op[0] == 'a' {
+					i, _ := strconv.Atoi(args[1])
+					regs[r].AddCert(u.Certs[i])
+				} else {
+					regs[r].AppendCertsFromPEM(u.pemFor(strings.Split(args[1], ".")))
+				}
+				return false
+			}()
+			if panicked {
+				return zv.Out{Go: "panic", Tags: []string{"nil-receiver-panic"}}
+			}
+			_ = k
+			return zv.Out{Go: "no-panic", Tags: []string{"nil-receiver-no-panic"}} // differs from the model's "panic": reported through T2
+		}
 		switch op[0] {
 		case 'a':
 			r, _ := strconv.Atoi(args[0])
@@ -270,8 +602,10 @@ func exec(line string) zv.Out {
 			if refs[r].has(u.Certs[i]) {
 				tags["add-duplicate"] = true
 			}
+			before := regs[r].Size()
 			regs[r].AddCert(u.Certs[i])
 			refs[r].add(u.Certs[i])
+			grew(r, before)
 		case 'p':
 			r, _ := strconv.Atoi(args[0])
 			toks := strings.Split(args[1], ".")
@@ -293,8 +627,9 @@ func exec(line string) zv.Out {
 			if ok != wantOK {
 				fail("op %d %s: AppendCertsFromPEM returned %v, want %v (a certificate block was parsed iff ok)", k, op, ok, wantOK)
 			}
-			if regs[r].Size() > before {
+			if regs[r] != nil && regs[r].Size() > before {
 				tags["pem-added"] = true
+				grew(r, before)
 			}
 			pemRes = append(pemRes, bit(ok))
 		case 's':
@@ -316,151 +651,57 @@ func exec(line string) zv.Out {
 					ref.add(c)
 				}
 			}
+			// T3: Sum returns a NEW pool
+			for r := 0; r < nRegs; r++ {
+				if sum == nil || (regs[r] != nil && regs[r] == sum) {
+					fail("op %d %s: Sum returned nil or one of the existing pools instead of a new pool", k, op)
+				}
+			}
+			if regs[a] != nil && regs[a].Size() > 0 {
+				role[regs[a]] = "receiver"
+			}
+			if regs[b] != nil && regs[b].Size() > 0 && regs[b] != regs[a] {
+				role[regs[b]] = "argument"
+			}
+			if sum != nil {
+				if _, ok := role[sum]; !ok {
+					role[sum] = "result"
+				}
+			}
 			regs[d], refs[d] = sum, ref
 		default:
 			panic("c08: bad op " + op)
 		}
+		observe(k, k == len(ops)-1)
 	}
-	// ---- observation (T2 output) and oracle (T3)
-	var parts []string
-	for r := 0; r < nRegs; r++ {
-		p := regs[r]
-		if p == nil {
-			parts = append(parts, "nil")
-			if p.Size() != 0 {
-				fail("nil pool has Size %d", p.Size())
-			}
-			continue
-		}
-		certs := p.Certificates()
-		subs := p.Subjects()
-		var ids, ss []string
-		for _, c := range certs {
-			ids = append(ids, strconv.Itoa(u.uid(c)))
-		}
-		for _, s := range subs {
-			ss = append(ss, strconv.Itoa(u.names.ID(s)))
-		}
-		parts = append(parts, fmt.Sprintf("%d/%s/%s", p.Size(), strings.Join(ids, "."), strings.Join(ss, ".")))
-		// T3: the pool is exactly the reference ordered set
-		ref := refs[r]
-		if p.Size() != len(ref.certs) || len(certs) != len(ref.certs) || len(subs) != len(ref.certs) {
-			fail("pool %d: Size=%d len(Certificates)=%d len(Subjects)=%d, but %d distinct fingerprints were added", r, p.Size(), len(certs), len(subs), len(ref.certs))
-		} else {
-			for i, c := range certs {
-				if !bytes.Equal(c.Raw, ref.certs[i].Raw) {
-					fail("pool %d: Certificates()[%d] is not the %d-th distinct certificate in first-insertion order", r, i, i)
-				}
-				if u.uid(c) < 100 && c != ref.certs[i] {
-					fail("pool %d: Certificates()[%d] is not the first-inserted object for its fingerprint", r, i)
-				}
-				if !bytes.Equal(subs[i], c.RawSubject) {
-					fail("pool %d: Subjects()[%d] differs from Certificates()[%d].RawSubject", r, i, i)
-				}
-			}
-		}
-		// T3: index maps point at the right positions
-		bySKID, byName, bySHA := p.ZVIndex()
-		for i, c := range certs {
-			if n, ok := bySHA[string(c.FingerprintSHA256)]; !ok || n != i {
-				fail("pool %d: bySHA256 of certs[%d] = %d,%v", r, i, n, ok)
-			}
-			found := false
-			for _, n := range byName[string(c.RawSubject)] {
-				found = found || n == i
-			}
-			if !found {
-				fail("pool %d: byName does not list certs[%d]", r, i)
-			}
-		}
-		if len(bySHA) != len(certs) {
-			fail("pool %d: bySHA256 has %d keys for %d certificates", r, len(bySHA), len(certs))
-		}
-		for _, m := range []map[string][]int{bySKID, byName} {
-			for _, l := range m {
-				if !sort.IntsAreSorted(l) {
-					fail("pool %d: an index list is not ascending: %v", r, l)
-				}
-				for _, n := range l {
-					if n < 0 || n >= len(certs) {
-						fail("pool %d: index %d out of range", r, n)
-					}
-				}
-			}
-		}
-	}
-	var cb, vb []byte
-	for r := 0; r < nRegs; r++ {
-		for i, c := range u.Certs {
-			got := regs[r].Contains(c)
-			cb = append(cb, bit(got))
-			want := refs[r] != nil && refs[r].has(c)
-			if got != want {
-				fail("pool %d: Contains(cert %d) = %v, want %v", r, i, got, want)
-			}
-		}
-	}
-	for a := 0; a < nRegs; a++ {
-		for b := 0; b < nRegs; b++ {
-			got := regs[a].Covers(regs[b])
-			vb = append(vb, bit(got))
-			want := true
-			if refs[b] != nil {
-				for _, c := range refs[b].certs {
-					if refs[a] == nil || !refs[a].has(c) {
-						want = false
-					}
-				}
-			}
-			if got != want {
-				fail("pool %d Covers pool %d = %v, want %v", a, b, got, want)
-			}
-		}
-	}
-	var pp []string
-	for r := 0; r < nRegs; r++ {
-		for i, c := range u.Certs {
-			parents, errCert, err := regs[r].ZVFindVerifiedParents(c)
-			var ps []string
-			for _, n := range parents {
-				ps = append(ps, strconv.Itoa(n))
-				// T3: only pool members whose signature over the child verifies
-				if n < 0 || n >= regs[r].Size() {
-					fail("findVerifiedParents(pool %d, cert %d) returned index %d outside the pool", r, i, n)
-				} else {
-					par := regs[r].Certificates()[n]
-					ok := false
-					if j := u.uid(par); j >= 0 && j < 100 {
-						ok = u.Chk[i][j] // CheckSignatureFrom(child i, universe object j), computed once with the real function
-					} else {
-						ok = c.CheckSignatureFrom(par) == nil
-					}
-					if !ok {
-						fail("findVerifiedParents(pool %d, cert %d) returned member %d whose signature check over the child fails", r, i, n)
-					}
-				}
-			}
-			if len(parents) > 0 {
-				tags["parents-found"] = true
-			}
-			if len(parents) > 1 {
-				tags["parents-multiple"] = true
-			}
-			ec := "-"
-			if errCert != nil {
-				ec = strconv.Itoa(u.uid(errCert))
-				tags["parents-rejected-candidate"] = true
-			}
-			pp = append(pp, fmt.Sprintf("%s/%s/%c", strings.Join(ps, "."), ec, bit(err == nil)))
-		}
-	}
-	out := strings.Join(parts, "|") + "|C=" + string(cb) + "|V=" + string(vb) + "|P=" + strings.Join(pp, ",") + "|M=" + string(pemRes)
+	out := strings.Join(steps, "#") + "#M=" + string(pemRes)
 	tl := []string{fmt.Sprintf("ops=%d", len(ops)), fmt.Sprintf("universe=%d", useed)}
 	for t := range tags {
 		tl = append(tl, t)
 	}
 	sort.Strings(tl)
 	return zv.Out{Go: out, Viol: viol, Tags: tl}
+}
+
+// live tracks which pool variables are non-nil along a generated history (variables 2.. are nil until a Sum is
+// assigned to them; a method call that writes through a nil *CertPool would be a nil dereference).
+type live [nRegs]bool
+
+func newLive() live { return live{true, true} }
+
+// admit reports whether op can run without dereferencing a nil pool, and marks the destination of a Sum live.
+func (l *live) admit(op string) bool {
+	args := strings.Split(op[1:], ":")
+	r, _ := strconv.Atoi(args[0])
+	switch op[0] {
+	case 'a':
+		return l[r]
+	case 'p':
+		return l[r] || !strings.Contains(args[1], "c")
+	case 's':
+		l[r] = true
+	}
+	return true
 }
 
 func gen(g *zv.Gen) {
@@ -472,68 +713,171 @@ func gen(g *zv.Gen) {
 		}
 		g.Emitf("c08 %d %s %s", useed, GetUniverse(useed).Desc(), o)
 	}
-	// exhaustive short histories over a fixed op alphabet, on the hand-made universe and a random one
-	var alpha []string
-	for i := 0; i < 7; i++ {
-		alpha = append(alpha, fmt.Sprintf("a0:%d", i))
-	}
-	alpha = append(alpha, "a1:1", "a1:3", "a1:6",
-		"p0:c2.g.c2.c4", "p1:n.c0.u.h.c5", "p0:g.u.t",
-		"s2:0:1", "s0:1:0", "s1:2:0")
-	for k, useed := range []uint64{0, 1 + g.Seed%1000} {
-		maxlen := g.N(4, 5)
-		if k > 0 {
-			maxlen = g.N(3, 4)
-		}
-		var rec func(prefix []string)
-		rec = func(prefix []string) {
-			emit(useed, prefix)
-			if len(prefix) == maxlen {
+	// all histories of exactly `depth` further operations over `alpha` after `prefix` (every prefix of a history
+	// is observed inside the case, so only the leaves are emitted)
+	exhaust := func(useed uint64, prefix []string, alpha []string, depth int) {
+		var rec func(h []string, l live, d int)
+		rec = func(h []string, l live, d int) {
+			if d == 0 {
+				emit(useed, h)
 				return
 			}
 			for _, a := range alpha {
-				rec(append(append([]string{}, prefix...), a))
+				l2 := l
+				if !l2.admit(a) {
+					continue
+				}
+				rec(append(append([]string{}, h...), a), l2, d-1)
 			}
 		}
-		rec(nil)
+		l := newLive()
+		for _, a := range prefix {
+			if !l.admit(a) {
+				panic("c08: bad prefix")
+			}
+		}
+		rec(prefix, l, depth)
 	}
-	// random longer histories on many universes
-	n := g.N(8000, 300000)
+	emit(0, nil)
+	// a certificate added through a nil pool variable: nil dereference in code and model alike
+	emit(0, []string{"a0:0", "a2:1"})
+	emit(0, []string{"a0:0", "p3:g.c1"})
+	emit(0, []string{"s2:0:1", "a3:1"})
+	// (A) exhaustive short histories from the empty pools on the hand-made universe
+	alpha := []string{"a0:0", "a0:1", "a0:6", "a0:7", "a0:8", "a0:11", "a0:4", "a1:1", "a1:3", "a1:7", "a1:11",
+		"p0:c2.g.c2.c4", "p1:n.c0.u.h.c5", "p0:g.u.t", "p1:c8.c10",
+		"s2:0:1", "s0:1:0", "s1:2:0", "s3:2:1", "a2:8", "a3:6"}
+	exhaust(0, nil, alpha, g.N(3, 4))
+	// (B) exhaustive tails after a pre-loaded state: k certificates of one subject (or one key id) in pool 0 -- the
+	// bucket lengths 2,3,5 (3 and 5 leave spare capacity in an appended slice) -- and one certificate in pool 1; the
+	// tail alphabet sums the pools and then adds further certificates of the same subject / key id to ANY of the pools
+	for _, useed := range []uint64{0, 1 + g.Seed%1000} {
+		u := GetUniverse(useed)
+		for ci, class := range [][]int{u.SubjClass, u.KidClass} {
+			ks := []int{2, 3, 5}
+			if !g.Quick {
+				ks = []int{1, 2, 3, 4, 5, 6, 7}
+			}
+			for _, k := range ks {
+				if k+1 > len(class) {
+					continue
+				}
+				var prefix []string
+				for _, c := range class[:k] {
+					prefix = append(prefix, fmt.Sprintf("a0:%d", c))
+				}
+				other := 0
+				for other < len(u.Certs)-1 && (u.Subj[other] == u.Subj[class[0]] || u.SKID[other] == u.SKID[class[0]]) {
+					other++
+				}
+				if ci == 1 {
+					other = class[len(class)-1] // a certificate of the class itself in the argument pool
+				}
+				prefix = append(prefix, fmt.Sprintf("a1:%d", other))
+				x := class[k]
+				y := class[(k+1)%len(class)]
+				tail := []string{"s2:0:1", "s2:1:0", "s3:2:0",
+					fmt.Sprintf("a0:%d", x), fmt.Sprintf("a1:%d", x), fmt.Sprintf("a2:%d", x), fmt.Sprintf("a3:%d", x),
+					fmt.Sprintf("a0:%d", y), fmt.Sprintf("a2:%d", y), fmt.Sprintf("p2:c%d", x)}
+				depth := 3
+				if !g.Quick && (k == 3 || k == 5) {
+					depth = 4
+				}
+				exhaust(useed, prefix, tail, depth)
+			}
+		}
+	}
+	// (C) the sum-then-mutate-both patterns, systematically, on several universes: receiver with k = 1.. certificates
+	// of one subject / key id, non-empty argument, then the next certificates of the class added to result,
+	// receiver, argument and second-generation sums in every order of a list of tails
+	nu := g.N(8, 60)
+	for s := 0; s < nu; s++ {
+		useed := uint64(s)
+		if s > 0 {
+			useed = uint64(1 + (int(g.Seed)*131+s*17)%1000)
+		}
+		u := GetUniverse(useed)
+		for _, class := range [][]int{u.SubjClass, u.KidClass} {
+			for k := 1; k < len(class) && k <= 7; k++ {
+				x, y := class[k], class[(k+1)%len(class)]
+				for _, other := range []int{(class[0] + 1) % (len(u.Certs) - 1), class[len(class)-1]} {
+					for rcv := 0; rcv < 2; rcv++ { // which variable is the receiver of the Sum
+						arg := 1 - rcv
+						var pre []string
+						for _, c := range class[:k] {
+							pre = append(pre, fmt.Sprintf("a%d:%d", rcv, c))
+						}
+						pre = append(pre, fmt.Sprintf("a%d:%d", arg, other), fmt.Sprintf("s2:%d:%d", rcv, arg))
+						tails := [][]string{
+							{fmt.Sprintf("a2:%d", x), fmt.Sprintf("a%d:%d", rcv, x)},
+							{fmt.Sprintf("a%d:%d", rcv, x), fmt.Sprintf("a2:%d", x)},
+							{fmt.Sprintf("p2:c%d", x), fmt.Sprintf("p%d:g.c%d", rcv, x)},
+							{fmt.Sprintf("a2:%d", x), fmt.Sprintf("a%d:%d", rcv, y), fmt.Sprintf("a2:%d", y), fmt.Sprintf("a%d:%d", rcv, x)},
+							{fmt.Sprintf("s3:2:%d", rcv), fmt.Sprintf("a3:%d", x), fmt.Sprintf("a2:%d", x), fmt.Sprintf("a%d:%d", rcv, x)},
+							{fmt.Sprintf("a%d:%d", arg, x), fmt.Sprintf("a2:%d", x), fmt.Sprintf("a%d:%d", rcv, y)},
+							{fmt.Sprintf("s%d:2:%d", rcv, arg), fmt.Sprintf("a%d:%d", rcv, x), fmt.Sprintf("a2:%d", x), fmt.Sprintf("s3:%d:2", rcv), fmt.Sprintf("a3:%d", y), fmt.Sprintf("a2:%d", y)},
+						}
+						for _, t := range tails {
+							emit(useed, append(append([]string{}, pre...), t...))
+						}
+					}
+				}
+			}
+		}
+	}
+	// (D) random longer histories on many universes: every operation picks ANY live pool variable (so receivers,
+	// arguments and results of earlier Sums keep being mutated), certificates are drawn with a per-history bias
+	// towards one subject / key id class
+	n := g.N(5000, 100000)
 	toks := []string{"g", "n", "h", "u", "t"}
 	for i := 0; i < n; i++ {
 		useed := uint64(r.Intn(g.N(40, 400)))
-		l := 1 + r.Intn(14)
-		nilReg := true // register 2 is nil until a Sum is assigned to it
+		u := GetUniverse(useed)
+		class := u.SubjClass
+		if r.Chance(50) {
+			class = u.KidClass
+		}
+		bias := 40 + r.Intn(55)
+		pick := func() int {
+			if r.Chance(bias) {
+				return class[r.Intn(len(class))]
+			}
+			return r.Intn(len(u.Certs))
+		}
+		l := newLive()
+		anyLive := func() int {
+			for {
+				if x := r.Intn(nRegs); l[x] {
+					return x
+				}
+			}
+		}
 		var ops []string
-		for j := 0; j < l; j++ {
-			switch k := r.Intn(10); {
-			case k < 5:
-				reg := r.Intn(nRegs)
-				if reg == 2 && nilReg {
-					reg = r.Intn(2)
-				}
-				ops = append(ops, fmt.Sprintf("a%d:%d", reg, r.Intn(7)))
-			case k < 7:
-				reg := r.Intn(nRegs)
-				if reg == 2 && nilReg {
-					reg = r.Intn(2)
-				}
+		for j, ln := 0, 2+r.Intn(18); j < ln; j++ {
+			var op string
+			switch k := r.Intn(20); {
+			case k < 11:
+				op = fmt.Sprintf("a%d:%d", anyLive(), pick())
+			case k < 14:
 				var ts []string
-				for m, nb := 0, 1+r.Intn(5); m < nb; m++ {
-					if r.Chance(55) {
-						ts = append(ts, fmt.Sprintf("c%d", r.Intn(7)))
+				for m, nb := 0, 1+r.Intn(4); m < nb; m++ {
+					if r.Chance(60) {
+						ts = append(ts, fmt.Sprintf("c%d", pick()))
 					} else {
 						ts = append(ts, toks[r.Intn(len(toks))])
 					}
 				}
-				ops = append(ops, fmt.Sprintf("p%d:%s", reg, strings.Join(ts, ".")))
+				op = fmt.Sprintf("p%d:%s", anyLive(), strings.Join(ts, "."))
+			case k == 14:
+				// PEM text without certificate on any variable, nil ones included
+				op = fmt.Sprintf("p%d:%s", r.Intn(nRegs), toks[r.Intn(len(toks))])
 			default:
-				d, a, b := r.Intn(nRegs), r.Intn(nRegs), r.Intn(nRegs)
-				ops = append(ops, fmt.Sprintf("s%d:%d:%d", d, a, b))
-				if d == 2 {
-					nilReg = false
-				}
+				op = fmt.Sprintf("s%d:%d:%d", r.Intn(nRegs), r.Intn(nRegs), r.Intn(nRegs))
 			}
+			if !l.admit(op) {
+				panic("c08: generated an operation on a nil pool")
+			}
+			ops = append(ops, op)
 		}
 		emit(useed, ops)
 	}
@@ -541,5 +885,5 @@ func gen(g *zv.Gen) {
 
 func init() {
 	zv.Register(&zv.Prop{ID: "C08", Topic: "c08", Gen: gen, Exec: exec,
-		Rule: "universes of 7 real Ed25519 certificates (6 minted with x509.CreateCertificate + one second object with duplicate DER; universe 0 hand-made with shared subjects, shared key ids, two parents with the same subject+key, a bad signature; the others random) x operation histories over three pool variables (two NewCertPool, one nil): AddCert, AppendCertsFromPEM (blocks: certificate / garbage text / non-certificate block / block with headers / truncated DER / DER with trailing byte), Sum (incl. nil receiver/argument). Exhaustive histories up to length 4 (quick) / 5 (thorough) over a 16-op alphabet on the hand-made universe and up to 3/4 on a seed-dependent random one + random histories up to 14 ops on 40/400 universes. After each history: Size, Certificates, Subjects of every pool, Contains for every universe certificate, Covers for every pair, findVerifiedParents for every pool x certificate. T3 = independent slice-based ordered set keyed by fingerprint, index-map sanity, and CheckSignatureFrom on every returned parent."})
+		Rule: "universes of 10..12 real Ed25519 certificates (minted with x509.CreateCertificate + one second object with duplicate DER; every universe has >= 4 distinct certificates with one subject and >= 4 with one SubjectKeyId; universe 0 hand-made: six same-subject and four same-key-id certificates, two parents with the same subject+key, a bad signature, children found by AKID and by name among them; the others random with a bias to one subject / key id) x operation histories over FOUR pool variables (two NewCertPool, two nil): AddCert, AppendCertsFromPEM (blocks: certificate / garbage text / non-certificate block / block with headers / truncated DER / DER with trailing byte), Sum (incl. nil receiver/argument, destination = any variable), where every later operation may mutate ANY live pool (receiver, argument and result of earlier Sums). (A) all histories of 3 (quick) / 4 (thorough) operations over a 21-op alphabet on the hand-made universe; (B) all 3-operation tails over a 10-op alphabet after pre-loading a pool with 2,3,5 (thorough 1..7; 4-operation tails for 3 and 5) certificates of one subject / key id; (C) systematic sum-then-mutate-both patterns for every receiver bucket length on 8/60 universes; (D) random histories up to 19 ops on 40/400 universes. After EVERY operation, for EVERY live pool: Size, Certificates, Subjects, Contains for every universe certificate, the three index maps (hook ZVIndex), findVerifiedParents for every universe certificate (real call once per distinct pool state per universe and always after the last operation), Covers for every pair of variables. T3 = independent slice-based ordered set keyed by fingerprint (a value: Sum copies), index maps exactly equal to the positions computed from Certificates(), Sum returns a new pool, CheckSignatureFrom on every returned parent and parents = verifying lookup candidates."})
 }
